@@ -5,6 +5,81 @@
 import Wsp.Model.Whisper
 namespace Wsp.Spec
 
-def stepSpec (_o : FOps) (_toks : List String) : Option String := none
+/-- C20: what a generated file must look like, checked on the series fetched from it over
+    each archive's whole retention.  `none` = satisfied; `some clause` = violated. -/
+def genCheckArchive (o : FOps) (fill : Bool) (bound : Nat) (k : Nat) (s : Series) : Option String :=
+  if !fill then
+    if s.values.all o.isNaN then none else some s!"archive {k}: a slot is not empty although fill is off"
+  else
+    let bad := s.values.any fun v => o.isNaN v || o.lt v (o.ofNat 0) || o.lt (o.ofNat bound) v
+    if bad then some s!"archive {k}: a slot is empty, negative or larger than {bound}" else none
+
+/-- the value at interval `t` of a series, if the series covers it -/
+def valueAt (s : Series) (t : Nat) : Option Val :=
+  if t < s.from_ ∨ s.step ≤ 0 then none else
+  let d := t - s.from_
+  if d % s.step.toNat ≠ 0 then none else s.values[d / s.step.toNat]?
+
+/-- every coarser slot fully covered by retained finer slots equals their sum -/
+def sumsConsistent (o : FOps) (k : Nat) (fine coarse : Series) : Option String :=
+  if fine.step ≤ 0 ∨ coarse.step ≤ 0 then some "bad step" else
+  let ratio := coarse.step.toNat / fine.step.toNat
+  let bad := (List.range coarse.values.length).any fun i =>
+    let T := coarse.from_ + i * coarse.step.toNat
+    let parts := (List.range ratio).map fun j => valueAt fine (T + j * fine.step.toNat)
+    if parts.all Option.isSome then
+      let sum := parts.foldl (fun acc p => o.add acc (p.getD 0)) (o.ofNat 0)
+      match coarse.values[i]? with
+      | some v => !o.eq v sum
+      | none => false
+    else false
+  if bad then some s!"archive {k + 1}: a slot fully covered by archive {k} is not the sum of its slots" else none
+
+def genCheck (o : FOps) (lay : List (Int × Nat)) (max : Nat) (fill : Bool) (series : List Series) : Option String :=
+  if series.length ≠ lay.length then some "one series per archive expected" else
+  match lay with
+  | [] => some "empty layout"
+  | (s0, _) :: _ =>
+    let per := (series.zipIdx.zip lay).findSome? fun ((s, k), (st, n)) =>
+      if s.step ≠ st then some s!"archive {k}: step {s.step} instead of {st}"
+      else if s.values.length ≠ n then some s!"archive {k}: {s.values.length} slots in the retention instead of {n}"
+      else genCheckArchive o fill (max * st.toNat / s0.toNat) k s
+    match per with
+    | some e => some e
+    | none =>
+      if !fill then none else
+      (List.range (series.length - 1)).findSome? fun k =>
+        match series[k]?, series[k + 1]? with
+        | some f, some c => sumsConsistent o k f c
+        | _, _ => none
+
+def parseSeries (s : String) : Option Series :=
+  match s.splitOn "/" with
+  | [f, u, st, vs] => do
+    let f ← f.toNat?; let u ← u.toNat?; let st ← st.toInt?
+    let vals ← (if vs = "-" then some [] else (vs.splitOn ",").mapM fun h =>
+      (h.toList.foldlM (fun acc c =>
+        let d := if '0' ≤ c ∧ c ≤ '9' then some (c.toNat - 48) else if 'a' ≤ c ∧ c ≤ 'f' then some (c.toNat - 87) else none
+        d.map fun v => acc * 16 + v) 0).map UInt64.ofNat)
+    return ⟨f, u, st, vals⟩
+  | _ => none
+
+def kvOf (toks : List String) (k : String) : Option String :=
+  toks.findSome? fun t => if t.startsWith (k ++ "=") then some (t.drop (k.length + 1)).toString else none
+
+def stepSpec (o : FOps) (toks : List String) : Option String :=
+  match toks with
+  | "genspec" :: rest => do
+    let lay ← (← kvOf rest "lay").splitOn "," |>.mapM fun p =>
+      match p.splitOn ":" with
+      | [a, b] => do let x ← a.toInt?; let y ← b.toNat?; return (x, y)
+      | _ => none
+    let max ← (← kvOf rest "max").toNat?
+    let fill := kvOf rest "fill" == some "1"
+    let series ← ((← kvOf rest "series").splitOn ";").mapM parseSeries
+    match genCheck o lay max fill series with
+    | none => return "ok"
+    | some e => return "violates " ++ e
+  | _ => none
 
 end Wsp.Spec
